@@ -1,12 +1,15 @@
 use vharness::engine::{self, Ctx, Sub};
 use vharness::*;
 
-fn subs_of(id: &str) -> Option<&'static [Sub]> {
+fn subs_of(id: &str) -> Option<Vec<Sub>> {
     Some(match id {
-        "C02" => checks::c02::SUBS,
-        "C03" => checks::c03::SUBS,
-        "C04" => checks::c04::SUBS,
-        "C11" => checks::c11::SUBS,
+        "C05" => checks::c05::SUBS.to_vec(),
+        "C16" => checks::c16::all_subs(),
+        "C01" => checks::c01::SUBS.to_vec(),
+        "C02" => checks::c02::SUBS.to_vec(),
+        "C03" => checks::c03::SUBS.to_vec(),
+        "C04" => checks::c04::SUBS.to_vec(),
+        "C11" => checks::c11::SUBS.to_vec(),
         _ => return None,
     })
 }
@@ -57,7 +60,7 @@ fn main() {
         std::process::exit(2);
     });
     if let Some(path) = replay {
-        std::process::exit(engine::replay_file(&ctx, subs, &path));
+        std::process::exit(engine::replay_file(&ctx, &subs, &path));
     }
     println!("== {} ({}) seed={} threads={}", cmd, tier, ctx.seed, ctx.threads);
     let code = match cmd {
@@ -76,6 +79,18 @@ fn main() {
         "C04" => {
             checks::c04::run(&ctx);
             checks::c04::finish(&ctx)
+        }
+        "C01" => {
+            checks::c01::run(&ctx);
+            checks::c01::finish(&ctx)
+        }
+        "C05" => {
+            checks::c05::run(&ctx);
+            checks::c05::finish(&ctx)
+        }
+        "C16" => {
+            checks::c16::run(&ctx);
+            checks::c16::finish(&ctx)
         }
         _ => 2,
     };
